@@ -1,6 +1,12 @@
 package props
 
-import "testing"
+import (
+	"testing"
+
+	"exoverif/sim"
+
+	"pgregory.net/rapid"
+)
 
 func init() {
 	registerWorldProp(&WorldProp{
@@ -42,3 +48,77 @@ func init() {
 }
 
 func TestC09AVS(t *testing.T) { runWorldProp(t, "C09AVS") }
+
+// the second sentence of the property, for the item "one AVS's voting-power update": worlds in
+// which the oracle cannot price one of the registered assets. An AVS that comes to support that
+// asset (an update of its asset list after operators have opted in) fails its update at every
+// end of its epoch from then on: its records must stay exactly as they were, and every other AVS
+// whose epoch ends in the same block must still be updated correctly (the exact priced-stake
+// oracle of C05 judges those)
+func init() {
+	base := *worldProps["C05"]
+	base.ID, base.Name = "C09", "C09Epoch"
+	base.Rule = "block-item failures: histories as C05 over worlds in which the oracle cannot price one registered asset; an AVS that comes to support it fails its voting-power update at every end of its epoch: its records must stay byte-identical and every other AVS whose epoch ends in the same block must be updated exactly (priced-stake oracle of C05); " +
+		"non-trivial = a history with a failing AVS update and another AVS judged in the same block"
+	cfgOf := base.Config
+	base.Config = func(t *rapid.T) sim.Config {
+		cfg := cfgOf(t)
+		cfg.NumAVS = 2 + uniform(t, 2, "nAVS9")
+		cfg.UnpricedAssets = []int{1}
+		cfg.DogfoodAssets = []int{0}
+		var fs []sim.FeederCfg
+		for _, f := range cfg.Feeders {
+			if f.Asset != 1 {
+				fs = append(fs, f)
+			}
+		}
+		cfg.Feeders = fs
+		return cfg
+	}
+	w := map[string]int{}
+	for k, v := range base.Gen.Weights {
+		w[k] = v
+	}
+	w["avsUpdate"], w["avsRegister"], w["avsOptIn"], w["avsDeregister"] = 6, 7, 9, 0
+	base.Gen.Weights = w
+	base.Gen.Dynamic = func(m *Machine, w map[string]int) map[string]int {
+		// once an AVS with opted-in operators has come to support the unpriceable asset, keep the
+		// stakes and prices moving, so that skipped updates of the other AVSs become visible
+		failing := false
+		for _, info := range m.avsView().avs {
+			if unpriceable(m, info) {
+				if ops, err := m.C.App.OperatorKeeper.GetOptedInOperatorListByAVS(m.C.Ctx(), info.AvsAddress); err == nil && len(ops) > 0 {
+					failing = true
+				}
+			}
+		}
+		if !failing {
+			return w
+		}
+		out := map[string]int{}
+		for k, v := range w {
+			out[k] = v
+		}
+		for _, k := range []string{"delegate", "undelegate", "depositLST", "price"} {
+			out[k] *= 3
+		}
+		out["avsUpdate"], out["avsRegister"] = 1, 2
+		return out
+	}
+	base.Invariants = func() []Invariant {
+		p := newPowerInv()
+		p.AsC09 = true
+		return []Invariant{p}
+	}
+	base.NonTrivial = func(m *Machine, invs []Invariant) (bool, []string) {
+		p := invs[0].(*powerInv)
+		m.Labels["block-items:avs-updates-that-fail"] += p.FailedItems
+		m.Labels["block-items:failing-avs-with-operator-records"] += p.FailedWithOperators
+		m.Labels["block-items:other-avs-updates-judged-in-a-block-with-a-failing-one"] += p.OthersAfterFail
+		return p.FailedItems > 0 && p.OthersAfterFail > 0, nil
+	}
+	base.Adapt, base.Known = nil, nil
+	registerWorldProp(&base)
+}
+
+func TestC09Epoch(t *testing.T) { runWorldProp(t, "C09Epoch") }
